@@ -428,7 +428,8 @@ func main() {
 	xdir := flag.String("xdir", "", "dump every -xevery-th solver query here for cross-solver checking")
 	xevery := flag.Int("xevery", 50, "sampling stride for -xdir")
 	patterns := flag.String("patterns", "./src,./src/algo,./src/util", "package patterns")
-	debug.SetGCPercent(800)
+	debug.SetGCPercent(400)
+	debug.SetMemoryLimit(20 << 30)
 	cpuprof := flag.String("cpuprofile", "", "write CPU profile")
 	flag.Parse()
 	if *cpuprof != "" {
@@ -504,14 +505,32 @@ func main() {
 		if len(j.Vectors) > 0 {
 			for _, v := range j.Vectors {
 				q.items = append(q.items, workItem{job: j, vec: v, conc: true})
+				j.queued++
 			}
 		} else {
 			q.items = append(q.items, workItem{job: j})
+			j.queued++
 		}
 	}
 	// reverse so that the first job is popped first
 	for i, k := 0, len(q.items)-1; i < k; i, k = i+1, k-1 {
 		q.items[i], q.items[k] = q.items[k], q.items[i]
+	}
+	if os.Getenv("SYMGO_PROGRESS") != "" {
+		go func() {
+			for {
+				time.Sleep(30 * time.Second)
+				var sb strings.Builder
+				for _, j := range jobs {
+					j.mu.Lock()
+					if j.started && j.queued > 0 && !j.stopped {
+						fmt.Fprintf(&sb, "  %s: paths=%d queued=%d t=%.0fs\n", j.ID, j.res.Paths, j.queued, time.Since(j.start).Seconds())
+					}
+					j.mu.Unlock()
+				}
+				fmt.Fprintf(os.Stderr, "PROGRESS %.0fs\n%s", time.Since(t0).Seconds(), sb.String())
+			}
+		}()
 	}
 	var wg sync.WaitGroup
 	var smtlog *os.File
